@@ -330,6 +330,67 @@ def loading(run, exprs, descr):
 # --------------------------------------------------------------------------
 # maps
 # --------------------------------------------------------------------------
+def folder_history_cases(run):
+    """one folder (with a nested sub-folder) loaded, changed, loaded again in
+    the same process: every load returns one curve object per curve recorded
+    in the files the folder holds at that moment"""
+    import nanite
+    from nanite import read as nread
+    files = [f for f in fd_files() if "bad" not in f.name]
+    singles = [f for f in files if f.name.endswith(".jpk-force")][:3]
+    maps = [f for f in files if f.name.endswith(".jpk-force-map")][:1]
+    if len(singles) < 2 or not maps:
+        run.count("folder-history-data-missing")
+        return
+    d = common.scratch() / "c20-folder-history"
+    shutil.rmtree(d, ignore_errors=True)
+    (d / "day1" / "cell2").mkdir(parents=True)
+    shutil.copy(singles[0], d / "a.jpk-force")
+    shutil.copy(singles[1], d / "day1" / "b.jpk-force")
+    steps = [
+        ("first load", lambda: None),
+        ("a map added in the nested sub-folder", lambda: shutil.copy(
+            maps[0], d / "day1" / "cell2" / "m.jpk-force-map")),
+        ("a curve added in the sub-folder", lambda: shutil.copy(
+            singles[-1], d / "day1" / "c.jpk-force")),
+        ("the first sub-folder curve removed", lambda: (
+            d / "day1" / "b.jpk-force").unlink()),
+        ("a curve added at the top", lambda: shutil.copy(
+            singles[1], d / "z.jpk-force")),
+    ]
+    for sname, act in steps:
+        act()
+        want = sum(independent_count(f) for f in sorted(d.rglob("*"))
+                   if f.is_file())
+        run.case({"folder-history": sname, "curves": want},
+                 kind="folder-history")
+        try:
+            with warnings.catch_warnings():
+                warnings.simplefilter("ignore")
+                seq = []
+                grp = nanite.load_group(d, callback=lambda x: seq.append(
+                    float(x)))
+                paths = nread.get_data_paths_enum(d) \
+                    if hasattr(nread, "get_data_paths_enum") else None
+            why = None
+            if len(grp) != want:
+                why = (f"load_group returned {len(grp)} curves, the folder "
+                       f"holds {want}")
+            elif paths is not None and len(paths) != want:
+                why = (f"get_data_paths_enum lists {len(paths)} curves, the "
+                       f"folder holds {want}")
+            elif seq and (seq[-1] != 1.0 or any(
+                    b < a for a, b in zip(seq, seq[1:]))):
+                why = f"progress values {seq[:4]}...{seq[-2:]}"
+        except BaseException as e:
+            why = f"raised {type(e).__name__}: {e}"
+        if why:
+            run.failing(SITE, f"folder-history:{sname}", f"after '{sname}': "
+                        f"{why}", payload={"kind": "rerun"},
+                        theorem="C20_progress / one object per curve")
+    shutil.rmtree(d, ignore_errors=True)
+
+
 def synthetic_group(shape, order, missing, seed):
     """curves on a grid of the given shape visited in the given scan order"""
     from nanite import IndentationGroup
@@ -651,6 +712,7 @@ def check(run):
     ]
     exprs, descr = [], []
     loading(run, exprs, descr)
+    folder_history_cases(run)
     maps(run, exprs, descr)
     fits.eval_bool_cases(run, "c20_qmap", exprs, descr, head=HEAD, chunk=30)
     run.rule = ("every recorded force-distance file, folders mixing single "
